@@ -15,7 +15,7 @@ PID = 'C02'
 
 META = {
     'technique': 'dominance / must-pass-through on the event-CFG of the packetization thread (temporal delimiter before every post), typestate of the OBU writers (header -> memmove -> size with agreeing argument expressions, by dominance and post-dominance), who-may-use check of the sequence-header type constant',
-    'text': 'Decides the structural part of packet well-formedness on every path: no packet can be posted without a temporal delimiter having been written into that buffer, every OBU writer frames its payload consistently (size field announced, payload shifted by the same amounts the size is written with), and the sequence header has one writer used by both the API and the key-frame path. The contents of the OBUs, exactly-one-shown-frame and EOS placement depend on queue contents at run time and are not decided.',
+    'text': 'Decides the structural part of packet well-formedness on every path: no packet can be posted without a temporal delimiter having been written into that buffer, every OBU writer frames its payload consistently (size field announced, payload shifted by the same amounts the size is written with), and the sequence header has one writer used by both the API and the key-frame path. The contents of the OBUs, exactly-one-shown-frame and EOS placement depend on queue contents at run time and are not decided. The framing clause follows helper functions: the gap opened for the size field (uleb length of X) and the value written into it must be the same X after inlining locals and substituting helper parameters.',
     'note': 'error packets posted by lib_svt_encoder_send_error_exit (p_buffer NULL, size 0) are not stream packets; allocation-failure returns are error exits',
     'ref': 'DESIGN.md section 5 C02',
 }
